@@ -35,7 +35,8 @@ class RawDocumentMapper:
             sequence: The attr sequence number
             value: The attr sample value
         """
-        namespace, name = split_qname(qname)
+        # A json document may have an empty key
+        namespace, name = split_qname(qname) if qname else (None, qname)
         namespace = cls.select_namespace(namespace, parent_namespace, tag)
         index = len(target.attrs)
 
